@@ -101,8 +101,11 @@ func closePipe(n *Named, name string) {
 
 	n.mutex.Lock()
 
-	n.pipes[name].Pipe.Close()
-	delete(n.pipes, name)
+	// the pipe might already have been removed by an earlier close or delete
+	if n.pipes[name].Pipe != nil {
+		n.pipes[name].Pipe.Close()
+		delete(n.pipes, name)
+	}
 
 	n.mutex.Unlock()
 }
